@@ -53,6 +53,16 @@ class App:
                 hdrs[i] = (n.encode("latin-1", "replace"), v) if t == "name-bytes" else \
                     (n, v.encode("latin-1", "replace")) if t == "value-bytes" else (n, 7) if t == "value-int" else (n, None)
         try:
+            if c.get("catch"):
+                # error-middleware shape: the first start_response is refused, the stack catches that and answers with its own
+                # error response through the exc_info form - nothing of the refused call may be left behind
+                try:
+                    start_response(c["status"], hdrs)
+                except Exception:
+                    import sys
+                    start_response("500 Caught By Middleware", [("X-Err", "caughtZq")], sys.exc_info())
+                    return [b"body-Zq"]
+                return [b"body-Zq"]
             if c.get("retry"):
                 start_response("200 First", [("X-First-Zq", "1")])
                 try:
@@ -99,6 +109,8 @@ def judge(case, out, app):
     data = out["received"]
     version = case["version"]
     verdict, app_lines = expected_lines(case, version)
+    if case.get("catch") and (verdict in ("refuse", "either") or b"500 Caught By Middleware\r\n" in out["received"][:60]):
+        return judge_caught(case, out, verdict)
     markers = [m.encode("latin-1", "replace") for m in case["markers"]]
     if out["handler_exc"]:
         v.append(("exception-escaped-handler", out["handler_exc"]))
@@ -153,6 +165,36 @@ def judge(case, out, app):
     return v, "accepted"
 
 
+def judge_caught(case, out, verdict):
+    """The application caught the refusal and answered '500 Caught By Middleware' with one header X-Err."""
+    v = []
+    data = out["received"]
+    if out["handler_exc"]:
+        v.append(("exception-escaped-handler", out["handler_exc"]))
+    if not data:
+        return v, "nothing-sent"
+    end = data.find(b"\r\n\r\n")
+    lines = data[:end].split(b"\r\n") if end >= 0 else [data]
+    if lines[0].endswith(b"500 Caught By Middleware"):
+        rest = [ln for ln in lines[4:] if ln != b"Transfer-Encoding: chunked"]
+        # valid headers of the refused call that were processed before the offending one may survive (gunicorn does not reset its
+        # header list on an exc_info retry - a PEP 3333 matter, not response splitting): tolerated; refused text is not
+        valid = set(ln.encode("latin-1", "replace") for ln in expected_lines(case, case["version"])[1])
+        ok = bool(rest) and rest[-1] == b"X-Err: caughtZq" and all(ln in valid for ln in rest[:-1])
+        if not ok or any(b"\r" in ln or b"\n" in ln or b"\0" in ln for ln in lines):
+            v.append(("refused-text-survives-exc-info-retry", "after the refused start_response(%r, %r) the stack answered with its own "
+                      "500 + X-Err, but the head on the wire is %r" % (case["status"], case["headers"], [hexs(x) for x in lines])))
+        return v, "caught-500"
+    if verdict == "either":
+        return v, "accepted"
+    markers = [m.encode("latin-1", "replace") for m in case["markers"]]
+    import re
+    if re.match(rb"^HTTP/1\.1 [45][0-9][0-9] [A-Za-z ]+$", lines[0]) and b"Server: gunicorn" not in lines:
+        return v, "refused-500"
+    v.append(("refused-text-on-wire/caught", "client received %s" % hexs(data[:300])))
+    return v, "accepted"
+
+
 BENIGN_STATUS = "200 OKZqS"
 BENIGN_NAME = "X-NameZqN"
 BENIGN_VALUE = "valueZqV"
@@ -204,6 +246,18 @@ def enum_cases():
                             cases.append({"status": st3, "headers": [["X-Before", "bZq"], [n3, v3], ["X-After", "aZq"]],
                                           "markers": ["ZqS", "ZqN", "ZqV", "bZq", "aZq", "pwnedZq"],
                                           "sig": [field, pos, tail]})
+    # the same injections when the application stack catches the refusal and retries with exc_info
+    for c in list(cases):
+        if c["sig"][0] in ("name", "value") and c["sig"][2] in (0, 10, 13) and len(c["sig"]) == 3:
+            cases.append(dict(c, catch=True, sig=c["sig"] + ["catch"]))
+    # hop-by-hop names are dropped - or, for 'Upgrade: websocket', forwarded: their values are application text all the same
+    for hname, base in (("Upgrade", "websocket"), ("Upgrade", "h2c"), ("Connection", "upgrade"), ("Transfer-Encoding", "chunked"),
+                        ("Keep-Alive", "timeout=5"), ("TE", "trailers")):
+        for ch in ("\r", "\n", "\0", "\r\n"):
+            for tail in ("", "Set-Cookie: pwnedZq=1", "/13"):
+                val = base + tail if ch == "" else base + ch + tail
+                cases.append({"status": BENIGN_STATUS, "headers": [["X-Before", "bZq"], [hname, val], ["X-After", "aZq"]],
+                              "markers": ["pwnedZq"], "sig": ["hop", hname, base, ch, tail]})
     return cases
 
 
@@ -237,7 +291,9 @@ def random_case(rng):
     status = rng.choice(["200 OK", "404 Not Found", "200", "299 Custom Reason", "200 OK\r\nX-Inj: 1Zqs", "200 OK\nX-Inj: 1Zqs",
                          "200 \0Zqs", "abcZqs", "", "200 OK " + "r" * 300, "200 caf\xe9", "200 ĀZqs", "2 0 0", "204 No Content"])
     c = {"status": status, "headers": hdrs, "markers": markers + ["Zqs"], "types": types or None,
-         "retry": rng.random() < 0.15}
+         "retry": rng.random() < 0.15, "catch": rng.random() < 0.2}
+    if c["catch"]:
+        c["retry"] = False
     if c["status"].startswith("204"):
         c["retry"] = False
     return c
